@@ -124,11 +124,27 @@ func c05Special(rng *core.Rand, k int) []c05Input {
 		}
 		b.WriteString("  let G<T>: T->[]T\n  let H<K, V>: K->V->K*V\n\n")
 		b.WriteString("package_info ext =\n")
-		for i := 0; i < 1+rng.Intn(4); i++ {
-			fmt.Fprintf(&b, "  let X%d: T%d->int\n", i, i%nt)
+		// the second block repeats the types and some functions of the first one (small blocks next
+		// to the code that uses them, as the tutorial suggests) among its new ones, in a random order
+		for i := 0; i < nt; i++ {
+			fmt.Fprintf(&b, "  type T%d\n", i)
 		}
+		var lines []string
+		for i := 0; i < 1+rng.Intn(4); i++ {
+			lines = append(lines, fmt.Sprintf("  let X%d: T%d->int\n", i, i%nt))
+		}
+		for i := 0; i < nf; i++ {
+			if rng.Chance(0.4) {
+				lines = append(lines, fmt.Sprintf("  let F%d: int->T%d\n", i, i%nt))
+			}
+		}
+		lines = append(lines, "  let G<T>: T->[]T\n")
+		core.Shuffle(rng, lines)
+		b.WriteString(strings.Join(lines, ""))
 		b.WriteString("  type Late\n  let MkLate: ()->Late\n\n")
 		b.WriteString("package_info _ =\n  type Loc\n  let mkLoc: int->Loc\n  let useLoc<T>: Loc->T->T\n\n")
+		b.WriteString("package_info _ =\n  type Loc\n  let useLoc<T>: Loc->T->T\n  let mkLoc: int->Loc\n  let lateLoc: Loc->int\n  let otherLoc: int->int\n\n")
+		b.WriteString("let d () =\n  otherLoc (lateLoc (mkLoc 4))\n\n")
 		b.WriteString("let a () =\n  ext.X0 (ext.F0 1)\n\n")
 		b.WriteString("let b () =\n  ext.H 1 (ext.G \"s\")\n\n")
 		b.WriteString("let c () =\n  useLoc (mkLoc 3) (ext.MkLate ())\n")
@@ -326,6 +342,7 @@ func runC05(r *core.Run, tier string) {
 		results[i] = o
 		os.RemoveAll(d)
 	})
+	var rejectedValid []string
 	siteMax := map[string]int{}
 	kinds := map[string]int64{}
 	for i, j := range jobs {
@@ -343,6 +360,10 @@ func runC05(r *core.Run, tier string) {
 			continue
 		}
 		ref := results[i-j.ord] // first member of the group
+		if j.ord == 0 && o.exit != 0 && in.kind != "self-hosted" && !strings.HasPrefix(in.kind, "union-match-missing") && !strings.HasPrefix(in.kind, "constraint-shape-ill") {
+			// an input built to be accepted is rejected: it reaches less of fc than intended
+			rejectedValid = append(rejectedValid, in.id+": "+oneLineN(o.diag, 120))
+		}
 		cls := func(e int) string {
 			if e == 0 {
 				return "accept"
@@ -376,6 +397,7 @@ func runC05(r *core.Run, tier string) {
 		}
 	}
 	r.Set("inputs", len(inputs))
+	r.Set("inputs_built_to_be_accepted_but_rejected", rejectedValid)
 	r.Set("executions_per_input", len(orders))
 	r.Set("orders", orders)
 	r.Set("input_kinds_x_executions", kinds)
